@@ -20,6 +20,9 @@
    the transaction id: tid mod 8 = 0..3 the correct response for the request (it echoes
    transaction id and unit id -- the handler's contract, a premise of C16), 4 / 7 an
    *ErrorParseTCP (bare / wrapped) with code (tid/8) mod 256, 5 a generic error, 6 a panic.
+   In every class the Go handler, having computed its answer, overwrites the scalar fields of the
+   request it was handed in place (gateway style); replies are addressed from the frame, so the
+   model's handler does not need to know.
    Mode 1 is a handler that always returns a packet with an empty Bytes().  Mode 2 is the handler
    of mode 0 sleeping longer than the server's WriteTimeout before it returns (time is not part of
    the model: same function).
